@@ -266,7 +266,7 @@ let () = section register_pool
 (* ---- C09 *)
 let register_c09 reg =
   reg "c09_ok" (function
-    | [iv; times; values; st; dr; ex] -> show_bool (c09_ok (zv iv) (zlist times) (zlist values) (zv st) (zv dr) (bv ex))
+    | [iv; times; values; st; dr; ex; late] -> show_bool (c09_ok (zv iv) (zlist times) (zlist values) (zv st) (zv dr) (bv ex) (zv late))
     | _ -> failwith "arity")
 let () = section register_c09
 
